@@ -366,7 +366,51 @@ func (pf *poolFacts) step(fn *ssa.Function, s *pstate, in ssa.Instruction, depth
 				}
 			}
 		}
-		*outs = append(*outs, o)
+		// a returned boolean that is the comma-ok of a receive whose token was counted on this path: the caller will
+		// branch on it; hand the two cases up separately (ok=false means the channel was closed: no token was taken)
+		split := false
+		for i := range x.Results {
+			if _, known := o.rets[i]; known {
+				continue
+			}
+			vals, zero := retValues(x, i)
+			if len(vals) != 1 || zero {
+				continue
+			}
+			ex, ok := s.resolve(stripValue(vals[0])).(*ssa.Extract)
+			if !ok || ex.Index != 1 {
+				continue
+			}
+			var recv ssa.Value
+			switch rv := ex.Tuple.(type) {
+			case *ssa.Select:
+				recv = rv
+			case *ssa.UnOp:
+				if rv.Op == token.ARROW {
+					recv = rv
+				}
+			}
+			if recv == nil || !s.taken[recv] {
+				continue
+			}
+			tt, ff := true, false
+			oT, oF := o, o
+			oT.rets = map[int]*bool{}
+			oF.rets = map[int]*bool{}
+			for k, v := range o.rets {
+				oT.rets[k] = v
+				oF.rets[k] = v
+			}
+			oT.rets[i] = &tt
+			oF.rets[i] = &ff
+			oF.e.T++
+			*outs = append(*outs, oT, oF)
+			split = true
+			break
+		}
+		if !split {
+			*outs = append(*outs, o)
+		}
 		return nil
 	case *ssa.Panic:
 		*outs = append(*outs, outcome{e: s.e, kind: "panic", path: s.path, iters: s.iters})
@@ -551,7 +595,25 @@ func ruleC24conserve(c *Ctx, r *Report) {
 	partial := map[string]bool{"AddCapacityResource": true, "scaleOutResources": true}
 	var kept []*ssa.Function
 	for _, fn := range ops {
-		if callers, ok := helper[fn]; ok && partial[fn.Name()] {
+		// an unexported function that is only called from other pool functions completes its effect in its callers too
+		unexportedHelper := false
+		if _, ok := helper[fn]; ok && fn.Object() != nil && !fn.Object().Exported() && fn.Parent() == nil {
+			unexportedHelper = true
+			for _, s := range c.callSites(func(cc *ssa.CallCommon) bool { return callsFunc(cc, fn) }) {
+				if c.IsMockFunc(s.Fn) {
+					continue
+				}
+				if !pf.touches(s.Fn) {
+					unexportedHelper = false
+				}
+			}
+			// the historical operations of the pool stay operations
+			switch fn.Name() {
+			case "get", "scaleInResources", "closeIdleResources":
+				unexportedHelper = false
+			}
+		}
+		if callers, ok := helper[fn]; ok && (partial[fn.Name()] || unexportedHelper) {
 			// callers outside the package?
 			ext := false
 			for _, s := range c.callSites(func(cc *ssa.CallCommon) bool { return callsFunc(cc, fn) }) {
@@ -761,11 +823,50 @@ func (pf *poolFacts) checkScaleTripCount(r *Report, rule string, scale *ssa.Func
 		if !ok || b.Op != token.LSS {
 			return
 		}
-		sub, ok := b.Y.(*ssa.BinOp)
-		if !ok || sub.Op != token.SUB {
+		// the bound as a linear form over the old and the new capacity (x - y, -(y - x), a temporary holding either)
+		var lin func(v ssa.Value, d int) (co, cn, k int64, ok bool)
+		lin = func(v ssa.Value, d int) (int64, int64, int64, bool) {
+			v = resolveLoad(stripValue(v))
+			src := convSource(v)
+			if sameVal(src, old) {
+				return 1, 0, 0, true
+			}
+			if sameVal(src, nw) {
+				return 0, 1, 0, true
+			}
+			if kk, ok := constInt(v); ok {
+				return 0, 0, kk, true
+			}
+			if d == 0 {
+				return 0, 0, 0, false
+			}
+			switch x := stripValue(v).(type) {
+			case *ssa.BinOp:
+				a1, b1, c1, ok1 := lin(x.X, d-1)
+				a2, b2, c2, ok2 := lin(x.Y, d-1)
+				if !ok1 || !ok2 {
+					return 0, 0, 0, false
+				}
+				switch x.Op {
+				case token.SUB:
+					return a1 - a2, b1 - b2, c1 - c2, true
+				case token.ADD:
+					return a1 + a2, b1 + b2, c1 + c2, true
+				}
+			case *ssa.UnOp:
+				if x.Op == token.SUB {
+					a1, b1, c1, ok1 := lin(x.X, d-1)
+					return -a1, -b1, -c1, ok1
+				}
+			case *ssa.Convert:
+				return lin(x.X, d-1)
+			}
+			return 0, 0, 0, false
+		}
+		co, cn, ck, okLin := lin(b.Y, 5)
+		if !okLin || ck != 0 || co == 0 {
 			return
 		}
-		x, y := convSource(sub.X), convSource(sub.Y)
 		// which channel operation does the true edge guard?
 		dir := 0
 		for _, e := range condEdges(b) {
@@ -791,7 +892,7 @@ func (pf *poolFacts) checkScaleTripCount(r *Report, rule string, scale *ssa.Func
 		}
 		n++
 		cons := fmt.Sprintf("trip-count:loop#%d", n)
-		okShape := (dir == -1 && sameVal(x, old) && sameVal(y, nw)) || (dir == +1 && sameVal(x, nw) && sameVal(y, old))
+		okShape := (dir == -1 && co == 1 && cn == -1) || (dir == +1 && co == -1 && cn == 1)
 		if okShape {
 			r.ok(rule, name, cons, c.Pos(b.Pos()), "the loop moves exactly |new-old| tokens, the amount the CompareAndSwap added to the capacity")
 		} else {
